@@ -224,6 +224,7 @@ package subscribe
 //@   assert at go (*Server).sendStreamingResults#0: [one-producer-per-rpc C05 C04] spawns() == old(spawns()) + ite(SubList(c.sr).Mode == 0 && UpdatesOnly(c.sr), 0, 1)
 //@   assert at go (*Server).sendStreamingResults#0: [updates-only-stream-gets-its-sync-from-the-rpc C04] SubList(c.sr).Mode == 0 ==> syncOffers == old(syncOffers) + ite(UpdatesOnly(c.sr), 1, 0) && registered
 //@   assert at call addSubscription#0: [acl-gate C07] c.target == "*" || (lastVerdict && lastChecked == c.target)
+//@   assert at call addSubscription#0: [updates-only-sync-queued-before-any-update-can-be C04] syncOffers == old(syncOffers) + ite(UpdatesOnly(c.sr), 1, 0)
 //@   assert at call (*Cache).HasTarget#0: [asks-about-the-requested-target C14] arg1 == ReqTarget(lastRecvMsg)
 
 // The ONCE goroutine: walk, then close the queue (the sender drains it first).
